@@ -7,9 +7,9 @@ from core import Part, require, Violation
 
 ID = 'C18'
 RULE = ('exhaustive part: every edge set of every partition a x b with a,b<=4 (quick; two edge orders) and additionally '
-        'a,b<=5 (thorough), enumerated as bitmasks in chunks; generated part: graphs up to 60x60 of all densities with duplicate '
+        'a,b<=5 (thorough), enumerated as bitmasks in chunks; generated part: graphs up to 80x80 of all densities (vertex indices as Python integers or NumPy int64 / int32 / intp / uint16 scalars) with duplicate '
         'edges, shuffled edge order and long-augmenting-path families (ladders, staircases, crowns). Non-trivial: >= 2 edges and '
-        '(optimum < min(a,b) or the input-order greedy matching is not maximum, i.e. an augmenting path is needed).')
+        '(optimum < min(a,b) or the input-order greedy matching is not maximum, i.e. an augmenting path is needed). Small cases also call one solver object twice.')
 ASSUME = ['optimum for <=5x5 from an independent bitmask dynamic programme; for larger graphs from an independent Kuhn '
           'augmenting-path implementation plus weak duality (a valid cover and a valid matching of equal size certify each other)']
 
